@@ -471,6 +471,32 @@ theorem proj_no_inverse (n : Nat) (s : Basis) :
       ty1 .determinant (.mat n (.r2p s)) = none := by
   simp [ty1]
 
+/-- `transpose` needs an array at least as large as the dimension of the map it is tagged with
+(mat.rs:118, a `const` assertion evaluated at monomorphisation). -/
+theorem transpose_iff (n k : Nat) (s d : Basis) (τ : Ty) :
+    ty1 .transpose (.mat n (.r2r k s d)) = some τ ↔ (k ≤ n ∧ τ = .mat n (.r2r k d s)) := by
+  simp [ty1]; grind
+
+/-- … and a rejected transpose of an affine map is always classified `mix-dim`. -/
+theorem transpose_reject_class (n k : Nat) (s d : Basis)
+    (h : ty1 .transpose (.mat n (.r2r k s d)) = none) :
+    mis1 .transpose (.mat n (.r2r k s d)) = some .mixDim := by
+  have hlt : n < k := by
+    apply Nat.lt_of_not_le
+    intro hn
+    simp [ty1, hn] at h
+  simp [mis1, hlt]
+
+example : ty1 .transpose (.mat 3 (.r2r 4 (.named 1) (.named 2))) = none := by decide
+
+/-- The difference type of any `Affine` value carries the value's own space tag and component count
+(so a difference taken in one space cannot be applied in another). -/
+theorem affine_diff_keeps_tag (x d : Ty) (h : affineDiff x = some d) :
+    d.space? = x.space? ∧ d.dim? = x.dim? :=
+  ⟨(affineDiff_tags x d h).1, (affineDiff_tags x d h).2.1⟩
+
+example : affineDiff (.col .u8 3 .hsl) = some (.vec .i32 3 .hsl) := by decide
+
 /-- Functions that take an `Angle` accept nothing else; in particular no scalar. -/
 theorem angle_param_iff (o : Op1) (ho : o = .rotateX ∨ o = .rotateY ∨ o = .rotateZ) (x τ : Ty) :
     ty1 o x = some τ ↔ (x = .angle ∧ τ = .mat 4 (.r2r 3 .unit .unit)) := by
@@ -639,6 +665,21 @@ theorem twin_col_lerp (a b t : Expr)
   simp [infer, ha, hb, ht, ty1, ty2, ty3, tyColour, lerpable, affineDiff, linearScalar, f32]
 
 example := twin_col_lerp Retro.TypeCorpus.Γ c1 c2 s rfl rfl rfl
+
+/-- **mix-space through a difference**: `a.add(&b.sub(&c))` on 8-bit colours is accepted iff the
+difference was taken in `a`'s own colour space (the `Diff` vector keeps the tag). -/
+theorem twin_colour_diff (a b c : Expr) (n : Nat) (sp sp' : Tag)
+    (ha : infer Γ a = some (.col .u8 n sp)) (hb : infer Γ b = some (.col .u8 n sp'))
+    (hc : infer Γ c = some (.col .u8 n sp')) :
+    (infer Γ (.bin .mAdd a (.bin .mSub b c)) = some (.col .u8 n sp) ↔ sp = sp') ∧
+    (infer Γ (.bin .mAdd a (.bin .mSub b c)) = none ↔ sp ≠ sp') ∧
+    infer Γ (.bin .mAdd a (.bin .mSub a a)) = some (.col .u8 n sp) := by
+  simp [infer, ha, hb, hc, ty2, affineDiff]
+  constructor
+  · exact eq_comm
+  · rw [eq_comm]
+
+example := twin_colour_diff Retro.TypeCorpus.Γ c4 c5 c5 3 _ _ rfl rfl rfl
 
 /-- **add-points**: `p + q` is rejected for every pair of points; the twins `p + (q - p)` and
 `p + q.to_vec()` are accepted. -/
